@@ -15,6 +15,7 @@ TITLE = "Flow-property wrapper: monotone transform, bounded positive diffusivity
 LEVEL = "exploration"
 BUDGET = {"quick": 2400, "thorough": 80000}
 SHRINK = {"quick": True, "thorough": True}
+FUZZ = {"thorough": 3000}  # executions per atheris process (16 processes), after the Hypothesis search
 RULE = (
     "Hypothesis draws a table (shipped CSVs thinned/cropped, synthetic families on uniform/geometric/jittered grids, "
     "small library-built tables) as DataFrame or dict of arrays, a variant (standard columns, user-supplied 'alpha' "
